@@ -4,6 +4,7 @@ package driver
 // work-list a worker hands back when it reaches its per-chunk path cap.
 
 import (
+	"strconv"
 	"bufio"
 	"encoding/json"
 	"fmt"
@@ -123,6 +124,7 @@ func runJobs(specs []interp.Job, o poolOpts) (*Agg, error) {
 	inflight := 0
 	stopped := false
 	var firstErr error
+	stopAfterViolations, _ := strconv.Atoi(os.Getenv("GOSYM_STOP_AFTER_VIOLATIONS"))
 
 	take := func() *interp.Job {
 		mu.Lock()
@@ -130,6 +132,12 @@ func runJobs(specs []interp.Job, o poolOpts) (*Agg, error) {
 		for {
 			if firstErr != nil {
 				return nil
+			}
+			if !stopped && stopAfterViolations > 0 && len(agg.Violations) >= stopAfterViolations {
+				// mutation-testing runs only (tools/mutest.sh): enough counterexamples to confirm natively
+				stopped = true
+				agg.Incomplete = append(agg.Incomplete, "stopped early after the requested number of violations (GOSYM_STOP_AFTER_VIOLATIONS)")
+				queue = nil
 			}
 			if !stopped && (time.Now().After(o.Deadline) || (o.MaxPaths > 0 && agg.Stats.Paths >= o.MaxPaths)) {
 				stopped = true
